@@ -115,4 +115,79 @@ var specs = map[string]*propSpec{
 		Floor:  map[string]int{"quick": 300, "thorough": 1500},
 		Phases: mainPhase,
 	},
+	"C07": {
+		ID: "C07",
+		Rule: "case idx -> expression AST of depth 1..6 over literals (incl. 0 and leading zeros), + - * / %, unary sign runs of length 1..5 (at the start, after an operator, after '(' and introduced through EQU substitution, e.g. x equ -1 ... 5*-x), redundant parentheses, " +
+			"0..3 EQUs (negative, compound 'a+b' so that textual substitution matters, chained), the four predefined constants under varying configurations, labels; rendered with no/single/random blanks and placed in one of four positions: " +
+			"operand fields of 'dat #e1, #e2' (6/10; under core size 2^34 the value is recovered exactly, under small M its reduction), 'org e' in front of 40 instructions, 'i for e ... rof' (count = emitted instructions), ';assert e' (accept <=> value != 0). " +
+			"The oracle is an independent big.Int precedence-climbing evaluator over the textually substituted token list; division by zero must be an error; values beyond 32 bits are only required not to panic. " +
+			"non-trivial = expression with a sign run >= 2, a negative / or % operand, or a sign introduced through an EQU; distinct by (position, AST shape)",
+		Assumptions: append([]string{
+			"EQU substitution is textual (pMARS semantics, the README's FOR example and the statement's 'substituted textually'); labels, predefined constants and FOR counters are atomic integer values"}, commonAssumptions...),
+		Floor:  map[string]int{"quick": 2000, "thorough": 20000},
+		Phases: mainPhase,
+	},
+	"C08": {
+		ID: "C08",
+		Rule: "case idx -> abstract program with FOR/ROF blocks in sequence and nested (depth <= 3), counts 0..6 as literals or expressions over EQUs defined earlier, counters used inside operand arithmetic of inner and outer bodies, counter-less blocks, optional block labels referenced from inside the block " +
+			"(1/6 of the programs also from outside: known-finding stratum), up to 40 block expansions in total (strata 0..12 and 13..40), both dialects, random layout. Three-way comparison: CompileWarrior(program) vs CompileWarrior(manual unrolling done on the abstract program by the harness) vs by-construction meaning. " +
+			"The only accepted failures are exactly the two known findings (signature = input predicate + exact error text); pinned witnesses of both and the two README examples run as cases 0..3 of every invocation. " +
+			"non-trivial = >= 2 blocks, nesting, or a counter inside arithmetic; distinct by block-tree shape",
+		Assumptions: append([]string{
+			"FOR counts only see EQUs written before the block (gmars gathers EQUs up to the first remaining FOR; forward EQUs in counts are outside the quantifier); labels inside bodies and block labels on blocks that emit nothing are not generated"}, commonAssumptions...),
+		Floor:  map[string]int{"quick": 300, "thorough": 3000},
+		Phases: mainPhase,
+	},
+	"C09": {
+		ID: "C09",
+		Rule: "case idx -> warrior W (length 1..{1,5,20,100}; first instruction ENUMERATES every form legal in the dialect: all 7616 in '94, the whole independent '88 table in '88; fields across [0,M) with 0, M/2, M/2+1, M-1 favoured; every entry point; M in {3,7,80,800,8000,8192,55440}) " +
+			"printed in the canonical load-file layout (ORG n / OP.MOD m a, m b / END in '94; OP m a, m b / END n in '88) with fields unsigned, signed, congruent (>= M or <= -M) or mixed, then perturbed by a set of layout-only perturbations " +
+			"{case, extra blanks/tabs, CR-LF, comment lines, blank lines, trailing comments, metadata comments, no final newline, last line is a comment, no END line}: canonical (1/4), single (1/4), random products (1/2). BOTH readers (ParseLoadFile and CompileWarrior) read the same text; code and entry point must equal W. " +
+			"non-trivial = text with >= 2 perturbations or a signed/congruent spelling; distinct by (dialect, perturbation set, spelling class)",
+		Assumptions: commonAssumptions,
+		Floor:       map[string]int{"quick": 500, "thorough": 1500},
+		Phases:      mainPhase,
+	},
+	"C10": {
+		ID: "C10",
+		Rule: "case idx -> canonical load file of a small warrior with 1-2 random corruptions (field deleted/duplicated/transposed, number out of range / negative / huge / malformed, unknown mnemonic, '94-only opcode or mode, illegal '88 combination, ORG/END in odd places with 0/1/2/4 arguments, comma removed, line duplicated/deleted, garbage line, short metadata line), " +
+			"optionally layout-perturbed, then: truncated at EVERY byte offset (1/4 of the cases), at one random offset, or not at all; both dialects; M in {3,7,80,8000}. The monitor requires: no panic; error xor warrior; on success entry point inside the code (0 when empty), every field < M, enums inside the data model, " +
+			"in '88 only legal '88 instructions with the implied modifier (independent table), and conservation: number of instructions read == number of instruction-shaped lines the structural line accountant saw before the end marker. " +
+			"non-trivial = accepted corrupted or truncated text; distinct by (dialect, corruption kind, outcome, length)",
+		Assumptions: append([]string{
+			"line accountant (ref/asm/loadfile.go) is structural only: a line is blank/comment, an ORG directive, the END marker, or 'instruction-shaped' (anything else) — it decodes nothing, so it cannot agree with the reader by construction"}, commonAssumptions...),
+		Floor:  map[string]int{"quick": 200, "thorough": 600},
+		Phases: mainPhase,
+	},
+	"C05": {
+		ID: "C05",
+		Rule: "case idx -> (valid configuration incl. all three modes and Length in {0,1,5,...}, byte string): cases 0..N are fixed hostile programs (EQU cycles with ;assert, self-growing EQUs, FOR blocks that fail half-way: bad count, missing ROF, lexer error after the block, nested, unterminated; NUL/^Z/invalid UTF-8; very long lines, deep parentheses, long sign runs); " +
+			"the rest: valid programs (generator of C03/C08), byte-level mutations (hostile bytes, deletions, flips, CR/CRLF, stripped final newline), token-level mutations (word replaced, lines duplicated/deleted/swapped/joined, pseudo-op lines inserted), the repository's own warriors (plain and mutated) and token soup over the real vocabulary. " +
+			"Inputs whose estimated FOR expansion exceeds 50k tokens are not generated. Process-level monitors around every CompileWarrior call, one call at a time per worker: panic; error xor warrior (zero WarriorData with an error, non-nil Code without); " +
+			"goroutine-leak monitor (goroutine count + goroutine profile: a goroutine with a gmars frame blocked in a channel operation after its creator returned can never run again); progress monitor (CPU time consumed inside the call against a fixed budget, deadlock = caller blocked in a channel operation with no runnable gmars goroutine); RSS cap 1 GiB. Thorough repeats 1/8 of the corpus on a -race worker. " +
+			"non-trivial = input that gets past the lexer or exercises the FOR expander; distinct by (input class, outcome / error-site prefix)",
+		Assumptions: append([]string{
+			"'time proportional to the size' is decided only as: CPU time inside the call stays below a fixed budget (6 s; 60 s under the race detector), about 1000x the observed cost; an unbounded 'eventually' is not decidable by a finite run",
+			"EQU fan-out and FOR-count blow-up are the documented semantics of textual substitution and are kept out of the workload (bounded chains, expansion estimate)"}, commonAssumptions...),
+		Floor:  map[string]int{"quick": 40, "thorough": 60},
+		Phases: []phase{{Name: "main"}, {Name: "race", Race: true, Tier: "thorough"}},
+	},
+	"C06": {
+		ID: "C06",
+		Rule: "case idx -> (configuration over all three modes, Length in {0,1,5,20,100,300}, text): half near-valid mutations of valid programs (a mode swapped to a '94-only one, an operand forced to immediate, ORG/END argument moved to len-1/len/len+1/-1, body repeated to max length -1/0/+1/+2/+7, opcode swapped to a '94-only or modified one, extreme literals, token mutations), half the hostile corpus of C05. " +
+			"Every input on which CompileWarrior SUCCEEDS is checked against the structural predicate (fields < M, 0 <= Start < len or empty with Start 0, len <= configured Length, enums inside the data model) and, in ICWS88 mode, against the independent '88 legality table with the implied modifier. " +
+			"non-trivial = accepted mutated input; distinct by (mode, mutation class, min(len,6))",
+		Assumptions: commonAssumptions,
+		Floor:       map[string]int{"quick": 100, "thorough": 200},
+		Phases:      mainPhase,
+	},
+	"C16": {
+		ID: "C16",
+		Rule: "case idx -> warrior (first instruction ENUMERATES all forms legal in the dialect; fields across [0,M) with 0, M/2, M/2+1, M-1 forced on half of the cases; every entry point; M in {3,7,80,8000,8192,2^20}; ICWS88, ICWS94 and NOP94 simulators) obtained through the real assembler, the real loader, or hand-made WarriorData; " +
+			"AddWarrior + LoadCode() gives the listing, which an independent reader of the pMARS listing conventions (START label, ORG START / END START, signed fields in (-M,M), upper-case OP.MOD in '94, no modifier in '88 with the modifier implied by the '88 table) must read back to exactly the warrior, fields compared modulo M. " +
+			"non-trivial = entry point != 0 or a field > M/2 (printed negative); distinct by (dialect, form of the first instruction)",
+		Assumptions: commonAssumptions,
+		Floor:       map[string]int{"quick": 2000, "thorough": 5000},
+		Phases:      mainPhase,
+	},
 }
